@@ -340,4 +340,51 @@ theorem lex_parse_spec (d : Delims) : ∀ (items : List Item) (off : Nat) (f : B
     rw [parse_comment, h2]
     simp [specNodes, Item.nodes, Item.closeHyphen, st2]
 
+/-! ## compositionality of the specification and of `render` -/
+
+theorem specNodesLA_false (d : Delims) : ∀ (items : List Item) (pr : Bool),
+    specNodesLA d pr false items = specNodes d pr items
+  | [], _ => rfl
+  | it :: rest, pr => by
+    have hn : nextOpenLA false rest = nextOpenI rest := by cases rest <;> rfl
+    cases it with
+    | piece p =>
+      cases p <;> simp [specNodesLA, specNodes, hn, specNodesLA_false d rest]
+    | comment o body c => simp [specNodesLA, specNodes, specNodesLA_false d rest]
+
+theorem nextOpenLA_append (la : Bool) (xs ys : List Item) :
+    nextOpenLA la (xs ++ ys) = nextOpenLA (nextOpenLA la ys) xs := by
+  cases xs <;> rfl
+
+theorem specNodesLA_append (d : Delims) : ∀ (xs ys : List Item) (pr la : Bool),
+    specNodesLA d pr la (xs ++ ys) = specNodesLA d pr (nextOpenLA la ys) xs ++ specNodesLA d (carry pr xs) la ys
+  | [], ys, pr, la => by simp [specNodesLA, carry]
+  | it :: rest, ys, pr, la => by
+    cases it with
+    | piece p =>
+      cases p <;>
+        simp [specNodesLA, carry, Item.isText, nextOpenLA_append, specNodesLA_append d rest ys, List.append_assoc]
+    | comment o body c =>
+      simp [specNodesLA, carry, Item.isText, specNodesLA_append d rest ys, List.append_assoc]
+
+theorem render_append {σ : Type} (sem : Sem σ) : ∀ (a b : List Node) (st : σ),
+    render sem st (a ++ b) =
+      ((render sem (render sem st a).1 b).1, (render sem st a).2 ++ (render sem (render sem st a).1 b).2)
+  | [], b, st => by simp [render]
+  | n :: a, b, st => by
+    cases n <;> simp [render, render_append sem a b, List.append_assoc]
+
+theorem render_textNodes {σ : Type} (sem : Sem σ) (st : σ) (s : Str) :
+    render sem st (textNodes s) = (st, s) := by
+  by_cases h : s = [] <;> simp [textNodes, h, render]
+
+theorem allOk_append (xs ys : List Item) : allOk (xs ++ ys) = (allOk xs && allOk ys) := by
+  simp [allOk, List.all_append]
+
+theorem carry_append_markup (pr : Bool) (xs : List Item) (p : Item) (hp : p.isText = false) :
+    carry pr (xs ++ [p]) = p.closeHyphen := by
+  induction xs generalizing pr with
+  | nil => simp [carry, hp]
+  | cons x xs ih => simp [carry, ih]
+
 end LiquidVerif.Lex
